@@ -280,6 +280,7 @@ structure LexAtn where
   ruleTokenType : List Nat
   modeStart : List Nat
   actions : List (Nat × Nat × Nat)
+  nonGreedy : List Nat := []          -- decision states marked non-greedy
   deriving Repr, Inhabited
 
 def readPairs : Nat → List Int → List (Nat × Nat) → Option (List (Nat × Nat) × List Int)
@@ -303,7 +304,7 @@ def deserializeLexer (xs : List Int) : Option LexAtn :=
       | nng :: rest =>
         match readList (nat nng) rest [] with
         | none => none
-        | some (_, rest) =>
+        | some (nonGreedy, rest) =>
           match rest with
           | np :: rest =>
             match readList (nat np) rest [] with
@@ -341,7 +342,8 @@ def deserializeLexer (xs : List Int) : Option LexAtn :=
                                     | some (actions, _) =>
                                       some { base := { maxTok := nat maxTok, stateRule := srule, stateType := stype,
                                                        ruleStart := rulePairs.map (·.1), sets := sets, edges := edges },
-                                             ruleTokenType := rulePairs.map (·.2), modeStart := modes, actions := actions }
+                                             ruleTokenType := rulePairs.map (·.2), modeStart := modes, actions := actions,
+                                             nonGreedy := nonGreedy }
                                   | [] => none
                               | [] => none
                           | [] => none
